@@ -139,6 +139,58 @@ def concatenate(blocks, axis):
     return SymArray(newshape, g, "poly")
 
 
+def stack_rows(rows):
+    """np.vstack of r one-dimensional arrays of equal length: result[i, c] == rows[i][c]; the row index selects the block through deltas"""
+    r = len(rows)
+    if r == 0 or any(x.ndim != 1 for x in rows) or not all(same(x.shape[0], rows[0].shape[0]) for x in rows):
+        raise Unsupported("vstack of arrays that are not equal-length vectors")
+    n = rows[0].shape[0]
+
+    def g(idx):
+        i = as_num(idx[0], sp.Integer(r))
+        out = None
+        for i0, R in enumerate(rows):
+            e = R.get((idx[1],))
+            t = to_poly(e) if r == 1 else p_mul(Poly([Term(1, [], [(i, Num([(sp.Integer(i0), sp.Integer(r))]))])]), e)
+            out = t if out is None else p_add(out, t)
+        return out
+
+    return SymArray((sp.Integer(r), n), g, "poly")
+
+
+def diag(A):
+    """np.diag: the diagonal of a square matrix as a vector, or the diagonal matrix of a vector"""
+    if A.ndim == 2:
+        if not same(A.shape[0], A.shape[1]):
+            raise Unsupported("np.diag of a non-square matrix")
+        return SymArray((A.shape[0],), lambda idx: A.get((idx[0], idx[0])), A.kind)
+    if A.ndim == 1:
+        n = A.shape[0]
+        return SymArray((n, n), lambda idx: p_mul(Poly([Term(1, [], [(as_num(idx[0], n), as_num(idx[1], n))])]), A.get((idx[0],))), "poly")
+    raise Unsupported("np.diag of a %d-d array" % A.ndim)
+
+
+def subst_value(x, sub):
+    """replace digit symbols inside an entry value (Entry / Delta / Num / Poly / SumEntry / sympy expression)"""
+    if isinstance(x, Num):
+        return Num([(sp.sympify(d).subs(sub), r) for d, r in _digits(x)])
+    if isinstance(x, Entry):
+        return Entry(x.name, [subst_value(i, sub) for i in x.idx], x.conj)
+    if isinstance(x, Delta):
+        return Delta(subst_value(x.a, sub), subst_value(x.b, sub), x.n)
+    if isinstance(x, SumEntry):
+        return subst_value(to_poly(x), sub)
+    if isinstance(x, Poly):
+        return Poly([Term(t.coef, [subst_value(f, sub) for f in t.factors], [(subst_value(a, sub), subst_value(b, sub)) for a, b in t.deltas], t.bound) for t in x.terms])
+    if isinstance(x, (int, sp.Expr)):
+        return sp.sympify(x).subs(sub)
+    raise Unsupported("substitution into %s" % type(x).__name__)
+
+
+def subst_array(A, sub):
+    return SymArray(A.shape, lambda idx: subst_value(A.get(idx), sub), A.kind)
+
+
 def add_arrays(A, B):
     if not all(same(x, y) for x, y in zip(A.shape, B.shape)) or A.ndim != B.ndim:
         raise Unsupported("sum of arrays of different shapes")
@@ -157,35 +209,45 @@ def _digits(num):
 
 
 def _align(a, b):
-    """digit lists of two numerals brought to a common radix sequence (splitting free digits where needed)"""
-    da, db = _digits(a), _digits(b)
-    ra, rb = [r for _, r in da], [r for _, r in db]
-    if len(ra) == len(rb) and all(same(x, y) for x, y in zip(ra, rb)):
-        return da, db
-    # split a along b's radices, or b along a's
-    for first in (0, 1):
-        try:
-            if first == 0:
-                parts = unflatten(Num(da), rb, "F")
-                return [t for p in parts for t in (p.terms or [(sp.Integer(0), sp.Integer(1))])][: len(rb)] if False else _flatten_parts(parts, rb), db
-            parts = unflatten(Num(db), ra, "F")
-            return da, _flatten_parts(parts, ra)
-        except Unaligned:
-            continue
-    raise Unaligned("delta between numerals of incompatible radix structure: %s vs %s" % (ra, rb))
+    """digit lists of two numerals refined to a common radix sequence (free digits are split where one radix is a multiple of the other)"""
+    W = sym.world()
+    da, db = list(_digits(a)), list(_digits(b))
+    outa, outb = [], []
 
-
-def _flatten_parts(parts, radices):
-    out = []
-    for p, r in zip(parts, radices):
-        t = sym.world().resolve_terms(p.terms)
-        if len(t) == 1:
-            out.append(t[0])
-        elif len(t) == 0:
-            out.append((sp.Integer(0), sp.sympify(r)))
+    def split(lst, need):
+        x, rx = lst[0]
+        x = sp.sympify(x)
+        if x.is_Integer and sp.sympify(rx).is_Integer and sp.sympify(need).is_Integer:
+            lst[0:1] = [(sp.Integer(int(x) % int(need)), sp.sympify(need)), (sp.Integer(int(x) // int(need)), sp.Integer(int(rx) // int(need)))]
+        elif x == 0:
+            lst[0:1] = [(sp.Integer(0), sp.sympify(need)), (sp.Integer(0), sp.cancel(rx / need))]
+        elif x in W.free:
+            lo, hi = W.split_digit(x, rx, need)
+            lst[0:1] = [lo, hi]
         else:
-            raise Unaligned("digit group does not reduce to one digit")
-    return out
+            raise Unaligned("cannot split the non-free digit %s of radix %s" % (x, rx))
+
+    while da and db:
+        (x, rx), (y, ry) = da[0], db[0]
+        if same(rx, ry):
+            outa.append(da.pop(0))
+            outb.append(db.pop(0))
+            continue
+        q = sp.cancel(rx / ry)
+        q2 = sp.cancel(ry / rx)
+        if sp.denom(q) == 1:
+            split(da, ry)
+        elif sp.denom(q2) == 1:
+            split(db, rx)
+        else:
+            raise Unaligned("delta between numerals of incompatible radix structure: %s vs %s" % (rx, ry), side=(rx, ry))
+    for x, rx in da:
+        outa.append((x, rx))
+        outb.append((sp.Integer(0), rx))
+    for y, ry in db:
+        outa.append((sp.Integer(0), ry))
+        outb.append((y, ry))
+    return outa, outb
 
 
 def _subs_entry(e, sub):
@@ -195,13 +257,17 @@ def _subs_entry(e, sub):
 def normalise(term):
     """eliminate deltas involving bound digits; returns (coef, factors, residual digit-level deltas, bound) or None if the term vanishes"""
     W = sym.world()
-    bound = {d: r for d, r in W.resolve_terms(term.bound)}
     factors = list(term.factors)
-    pending = []
-    for a, b in term.deltas:
-        da, db = _align(a, b)
-        for (x, rx), (y, ry) in zip(da, db):
-            pending.append((sp.sympify(x), sp.sympify(y)))
+    while True:  # aligning may split free digits; repeat until the digit structure is stable so every equality is between atomic digits
+        n0 = W.splits
+        pending = []
+        for a, b in term.deltas:
+            da, db = _align(a, b)
+            for (x, rx), (y, ry) in zip(da, db):
+                pending.append((sp.sympify(x), sp.sympify(y)))
+        if W.splits == n0:
+            break
+    bound = {d: r for d, r in W.resolve_terms(term.bound)}
     residual = []
     changed = True
     while pending:
@@ -226,8 +292,47 @@ def normalise(term):
     # re-resolve bound digits after substitutions (splits may have happened)
     final_bound = []
     for d, r in bound.items():
-        final_bound += W.resolve_terms([(d, r)])
-    return term.coef, factors, residual, final_bound
+        final_bound += [(d2, r2) for d2, r2 in W.resolve_terms([(d, r)]) if not sym._is_one(r2)]  # a sum over one value is no sum
+    # residual deltas between free digits / constants: union-find; substitute class representatives into the factor indices (the term is zero
+    # off the diagonal the deltas describe, so indices may be rewritten along them); two different constants in one class: the term is zero
+    parent = {}
+
+    def find(x):
+        while parent.get(x, x) != x:
+            x = parent[x]
+        return x
+
+    plain = [(x, y) for x, y in residual if (x.is_Symbol or x.is_number) and (y.is_Symbol or y.is_number)]
+    other = [(x, y) for x, y in residual if not ((x.is_Symbol or x.is_number) and (y.is_Symbol or y.is_number))]
+    for x, y in plain:
+        rx, ry = find(x), find(y)
+        if rx == ry:
+            continue
+        if rx.is_number and ry.is_number:
+            return None
+        # representative: a constant if there is one, else the symbol that sorts first
+        keep, drop = (rx, ry) if (rx.is_number or (not ry.is_number and sp.default_sort_key(rx) <= sp.default_sort_key(ry))) else (ry, rx)
+        parent[drop] = keep
+    sub = {x: find(x) for x in list(parent) if find(x) != x}
+    if sub:
+        factors = [_subs_entry(f, sub) for f in factors]
+        other = [(sp.sympify(x).subs(sub), sp.sympify(y).subs(sub)) for x, y in other]
+    residual = sorted([(k, v) for k, v in sub.items()], key=lambda kv: sp.default_sort_key(kv[0])) + other
+    # a bound digit that no factor and no delta mentions is summed freely: it contributes its radix
+    used = set()
+    for f in factors:
+        for v in _idx_vals(f):
+            used |= sp.sympify(v).free_symbols
+    for x, y in residual:
+        used |= sp.sympify(x).free_symbols | sp.sympify(y).free_symbols
+    coef = term.coef
+    kept = []
+    for d, r in final_bound:
+        if d in used:
+            kept.append((d, r))
+        else:
+            coef = coef * r
+    return coef, factors, residual, kept
 
 
 def _fkey(f):
@@ -247,8 +352,8 @@ def polys_equal(ctx, got, exp, minimise=()):
         E = [normalise(t) for t in to_poly(exp).terms]
     except Unaligned as u:
         return dict(status="undecided", backend="-", model=None, detail="unaligned: %s" % u, ms=0.0)
-    G = [t for t in G if t is not None and t[0] != 0]
-    E = [t for t in E if t is not None and t[0] != 0]
+    G = _merge(ctx, [t for t in G if t is not None and t[0] != 0])
+    E = _merge(ctx, [t for t in E if t is not None and t[0] != 0])
     if len(G) != len(E):
         return dict(status="undecided", backend="structural-mismatch", model=None, detail="%d terms vs %d terms" % (len(G), len(E)), ms=0.0)
     total_ms = 0.0
@@ -259,7 +364,7 @@ def polys_equal(ctx, got, exp, minimise=()):
         for j, (ec, ef, eres, eb) in enumerate(E):
             if j in used:
                 continue
-            if sp.simplify(gc - ec) != 0 or sorted(map(_fkey, gf)) != sorted(map(_fkey, ef)) or len(gb) != len(eb) or len(gres) != len(eres):
+            if sp.simplify(gc - ec) != 0 or sorted(map(_fkey, gf)) != sorted(map(_fkey, ef)) or len(gb) != len(eb):
                 continue
             res = _match(ctx, gf, gres, gb, ef, eres, eb, minimise)
             total_ms += res.get("ms", 0.0)
@@ -275,6 +380,30 @@ def polys_equal(ctx, got, exp, minimise=()):
             w["ms"] = total_ms
             return w
     return dict(status="discharged", backend="bilinear+" + ("z3" if total_ms else "normal-form"), model=None, detail="", ms=total_ms)
+
+
+def _merge(ctx, terms):
+    """collect like terms: terms without bound digits by a canonical key (factor keys + residual classes), the others by pairwise matching"""
+    out = []
+    index = {}
+    for c, f, res, b in terms:
+        if not b:
+            key = (tuple(sorted((str(k) for k in map(lambda e: e.key(), f)))), tuple(sorted((str(x), str(y)) for x, y in res)))
+            if key in index:
+                i = index[key]
+                out[i] = (out[i][0] + c, out[i][1], out[i][2], out[i][3])
+                continue
+            index[key] = len(out)
+            out.append((c, f, res, b))
+            continue
+        for i, (c2, f2, res2, b2) in enumerate(out):
+            if b2 and sorted(map(_fkey, f)) == sorted(map(_fkey, f2)) and len(b) == len(b2) and len(out) < 64:
+                if _match(ctx, f, res, b, f2, res2, b2, ())["status"] == "discharged":
+                    out[i] = (c2 + c, f2, res2, b2)
+                    break
+        else:
+            out.append((c, f, res, b))
+    return [t for t in out if sp.simplify(t[0]) != 0]
 
 
 def _match(ctx, gf, gres, gb, ef, eres, eb, minimise):
@@ -311,12 +440,21 @@ def _match(ctx, gf, gres, gb, ef, eres, eb, minimise):
                     b2 = sp.expand(sp.sympify(b).subs(ren, simultaneous=True))
                     if sp.expand(a - b2) != 0:
                         nf_equal = False
-                        neq.append(sp.Ne(a, b2))
-            for (x, y), (x2, y2) in zip(gres, eres):
-                x2, y2 = sp.sympify(x2).subs(ren, simultaneous=True), sp.sympify(y2).subs(ren, simultaneous=True)
-                if not ((sp.expand(x - x2) == 0 and sp.expand(y - y2) == 0) or (sp.expand(x - y2) == 0 and sp.expand(y - x2) == 0)):
-                    nf_equal = False
-                    neq.append(sp.Xor(sp.Eq(x, y), sp.Eq(x2, y2)))
+                        # the term is zero unless its residual deltas hold: index maps need to agree only where they do
+                        neq.append(sp.And(*([sp.Eq(x, y) for x, y in gres] + [sp.Ne(a, b2)])))
+            # residual deltas (between free digits / constants): the two products of deltas are equal as 0/1 values iff the conjunctions
+            # of their equalities are equivalent
+            def canon(pairs):
+                out = set()
+                for x, y in pairs:
+                    x, y = sp.expand(sp.sympify(x)), sp.expand(sp.sympify(y))
+                    out.add(tuple(sorted((x, y), key=sp.default_sort_key)))
+                return out
+
+            eres2 = [(sp.sympify(x2).subs(ren, simultaneous=True), sp.sympify(y2).subs(ren, simultaneous=True)) for x2, y2 in eres]
+            if canon(gres) != canon(eres2):
+                nf_equal = False
+                neq.append(sp.Xor(sp.And(*[sp.Eq(x, y) for x, y in gres]), sp.And(*[sp.Eq(x, y) for x, y in eres2])))
             if nf_equal:
                 return dict(status="discharged", backend="bilinear+normal-form", model=None, detail="", ms=ms)
             hyps = range_hyps()
@@ -328,3 +466,94 @@ def _match(ctx, gf, gres, gb, ef, eres, eb, minimise):
                 return dict(status="discharged", backend="bilinear+" + be, model=None, detail="", ms=ms)
             last = dict(status=st, backend="bilinear+" + be, model=model, detail="index maps differ under every tried renaming of bound digits", ms=ms)
     return last or dict(status="undecided", backend="-", model=None, detail="no matching tried", ms=ms)
+
+
+# ---------------------------------------------------------------------------------------------
+# self-check: the array operations above against real numpy on concrete shapes
+# ---------------------------------------------------------------------------------------------
+def eval_value(x, arrays):
+    """numeric value of an entry (Entry / Delta / Poly / SumEntry / number) whose free digits are all concrete; bound digits are enumerated"""
+    import itertools as it
+
+    import numpy as np
+
+    W = sym.world()
+    total = 0
+    for t in to_poly(x).terms:
+        bound = W.resolve_terms(t.bound)
+        syms = [d for d, _ in bound]
+        for vals in it.product(*[range(int(r)) for _, r in bound]):
+            sub = dict(zip(syms, vals))
+            v = complex(t.coef)
+            for a, b in t.deltas:
+                if int(sp.sympify(a.value()).subs(sub)) != int(sp.sympify(b.value()).subs(sub)):
+                    v = 0
+                    break
+            if v == 0:
+                continue
+            for f in t.factors:
+                idx = tuple(int(sp.sympify(i.value() if isinstance(i, Num) else i).subs(sub)) for i in f.idx)
+                e = arrays[f.name][idx]
+                v *= np.conj(e) if f.conj else e
+            total += v
+    return total
+
+
+def crosscheck(n_cases=40, seed=0):
+    """random concrete instances of kron / matmul / concatenate / vstack / diag / add / scale / conj / T / reshape: every entry of the symbolic
+    result evaluated numerically must equal numpy's.  Returns {"ok", "cases", "failures"}."""
+    import numpy as np
+
+    rng = np.random.default_rng(seed)
+    fails = []
+    done = 0
+
+    def arr(name, shape):
+        return SymArray(tuple(sp.Integer(s) for s in shape), (lambda nm: (lambda idx: Entry(nm, [as_num(i, sp.Integer(s)) for i, s in zip(idx, shape)])))(name))
+
+    def compare(label, S, N, arrays):
+        nonlocal done
+        done += 1
+        if tuple(int(s) for s in S.shape) != N.shape:
+            fails.append("%s: shape %s vs %s" % (label, S.shape, N.shape))
+            return
+        for idx in np.ndindex(*N.shape):
+            sym.reset_world()
+            got = eval_value(S.get(tuple(Num([(sp.Integer(i), sp.Integer(s))]) for i, s in zip(idx, N.shape))), arrays)
+            if abs(got - N[idx]) > 1e-9:
+                fails.append("%s: entry %s = %s, numpy %s" % (label, idx, got, N[idx]))
+                return
+
+    for k in range(n_cases):
+        a, b, c, d = (int(x) for x in rng.integers(1, 4, size=4))
+        A = rng.normal(size=(a, b)) + 1j * rng.normal(size=(a, b))
+        B = rng.normal(size=(c, d)) + 1j * rng.normal(size=(c, d))
+        C = rng.normal(size=(b, d)) + 1j * rng.normal(size=(b, d))
+        v = rng.normal(size=(b,)) + 0j
+        arrays = {"A": A, "B": B, "C": C, "v": v}
+        sA, sB, sC, sv = arr("A", (a, b)), arr("B", (c, d)), arr("C", (b, d)), arr("v", (b,))
+        which = k % 10
+        if which == 0:
+            compare("kron", kron(sA, sB), np.kron(A, B), arrays)
+        elif which == 1:
+            compare("kron(1-D, 2-D)", kron(sv, sB), np.kron(v, B), arrays)
+        elif which == 2:
+            compare("matmul", matmul(sA, sC), A @ C, arrays)
+        elif which == 3:
+            compare("concatenate axis=1", concatenate([sA, sA.conj(), sA], 1), np.concatenate([A, A.conj(), A], axis=1), arrays)
+        elif which == 4:
+            compare("concatenate axis=0", concatenate([sA, sA], 0), np.concatenate([A, A], axis=0), arrays)
+        elif which == 5:
+            rows = [SymArray((sp.Integer(b),), (lambda i: (lambda idx: sA.get((Num([(sp.Integer(i), sp.Integer(a))]), idx[0]))))(i)) for i in range(a)]
+            compare("vstack", stack_rows(rows), np.vstack([A[i, :] for i in range(a)]), arrays)
+        elif which == 6:
+            compare("diag(vector)", diag(sv), np.diag(v), arrays)
+            if a == b:
+                compare("diag(matrix)", diag(sA), np.diag(A), arrays)
+        elif which == 7:
+            compare("scale/add/conj/T", add_arrays(scale(sp.Rational(1, 3), sA.conj().T), scale(-2, sA.T)), A.conj().T / 3 - 2 * A.T, arrays)
+        elif which == 8:
+            compare("matmul(kron, reshape F)", matmul(kron(sv, SymArray((sp.Integer(c), sp.Integer(c)), lambda idx: Delta(idx[0], idx[1], sp.Integer(c)), "delta")), kron(sC, sB).reshape((b * c, d * d), "F")), np.kron(v, np.identity(c)) @ np.reshape(np.kron(C, B), (b * c, d * d), order="F"), arrays)
+        else:
+            compare("matmul chain with identity kron", matmul(matmul(concatenate([sA, sA.conj()], 1), kron(SymArray((sp.Integer(2), sp.Integer(2)), lambda idx: Delta(idx[0], idx[1], sp.Integer(2)), "delta"), sC)), concatenate([sC.conj().T, sC.T], 0)), np.concatenate([A, A.conj()], axis=1) @ np.kron(np.identity(2), C) @ np.concatenate([C.conj().T, C.T], axis=0), arrays)
+    return {"ok": not fails and done > 0, "cases": done, "failures": fails[:5]}
